@@ -75,6 +75,7 @@ pub struct WorldA {
     deadlines_t: Vec<u64>,
     page_rot: usize,
     pending: Vec<Violation>,
+    queue: std::collections::VecDeque<Step>,
 }
 
 fn exp_json(e: &Expiration) -> Value {
@@ -351,12 +352,7 @@ impl WorldA {
                     }
                 }
             }
-            Some(None) => {
-                if let Some((_, Some(c))) = &obs.minter {
-                    // a cap appearing later is stricter, but it is still a change of the fixed cap
-                    self.viol(out, "C13", "cap-changed", json!({}), format!("cap {} appeared", c));
-                }
-            }
+            Some(None) => {}
             None => {}
         }
         if self.minter_gone || self.cap0.is_none() {
@@ -1417,6 +1413,7 @@ impl World for WorldA {
             deadlines_t: vec![],
             page_rot: 0,
             pending: vec![],
+            queue: Default::default(),
         };
         if w.token_ok {
             w.meter.flag("instantiated");
@@ -1455,7 +1452,52 @@ impl World for WorldA {
         if !self.token_ok {
             return Step::Block { dh: 1, dt: self.cfg.spb };
         }
+        if let Some(s) = self.queue.pop_front() {
+            return s;
+        }
         let r = rng.below(100);
+        if r >= 92 {
+            // F1: the classic race — the owner reduces (or re-grants) an allowance while the spender draws,
+            // adjacent in the same block, in either order
+            let mut live: Vec<(String, String, u128)> = vec![];
+            if let Some(o) = &self.obs {
+                for ((ow, sp), (a, _)) in &o.allow {
+                    if *a > 0 && self.users.contains(ow) && self.users.contains(sp) {
+                        live.push((ow.clone(), sp.clone(), *a));
+                    }
+                }
+            }
+            if !live.is_empty() {
+                let (ow, sp, a) = rng.pick(&live).clone();
+                let cut = match rng.below(4) {
+                    0 => a,
+                    1 => a / 2,
+                    2 => a.saturating_add(1),
+                    _ => 1,
+                };
+                let draw = match rng.below(4) {
+                    0 => a,
+                    1 => a / 2 + 1,
+                    2 => a.saturating_sub(cut),
+                    _ => a.saturating_sub(cut).saturating_add(1),
+                };
+                let owner_step = if rng.chance(3, 4) {
+                    Step::Tx { sender: ow.clone(), target: "token".into(), msg: json!({"decrease_allowance":{"spender": sp, "amount": cut.to_string(), "expires": null}}), funds: vec![], fault: None, script: vec![] }
+                } else {
+                    Step::Tx { sender: ow.clone(), target: "token".into(), msg: json!({"increase_allowance":{"spender": sp, "amount": cut.to_string(), "expires": null}}), funds: vec![], fault: None, script: vec![] }
+                };
+                let rcpt = self.pick_any(rng);
+                let spender_step = Step::Tx { sender: sp.clone(), target: "token".into(), msg: json!({"transfer_from":{"owner": ow, "recipient": rcpt, "amount": draw.to_string()}}), funds: vec![], fault: None, script: vec![] };
+                self.meter.hit("allowance_race_pair_scheduled");
+                if rng.chance(1, 2) {
+                    self.queue.push_back(spender_step);
+                    return owner_step;
+                } else {
+                    self.queue.push_back(owner_step);
+                    return spender_step;
+                }
+            }
+        }
         if r < 14 {
             // clock
             let b = self.chain.block();
